@@ -5,6 +5,10 @@ R03a no accepting path contradicts the precondition of a fixed-base power: the b
      guarded on the path by an equality with it (a guard establishing inequality is a contradiction),
 R03b prover/verifier duality of the I/O shapes for every prover/verifier pair,
 R03c prover and verifier hash the same argument lists,
+R03f cyclic index arithmetic: an unsigned difference of two loop counters (j - k) is evaluated only
+     under a guard that orders them (the (j >= k) ? j-k : n-(k-j) idiom); unguarded it wraps modulo 2^64
+     for every iteration with j < k, and `% n` of the wrapped value is the intended index only when n
+     is a power of two -- honest proofs of other sizes are rejected,
 R03e reject clauses of a verifier that constrain the *statement alone* (no transmitted value
      involved) and are not in the frozen inventory: a new "differs from a specific value" clause
      refuses the true statements that have this value whatever the honest prover does (the property
@@ -59,6 +63,7 @@ def run(ctx):
     r03bc(ctx)
     r03d(ctx)
     r03e(ctx)
+    r03f(ctx)
 
 
 def class_chain(prog, cls):
@@ -327,3 +332,42 @@ def r03e(ctx):
     ctx.info['R03e_new'] = new
     ctx.ok('R03e', 'R03e:summary', '%d statement-only (in)equalities in the verifiers, all part of the confirmed inventory' % n)
     ctx.floor('R03e', n, 20)
+
+
+def r03f(ctx):
+    from .. import bounds
+    from ..sym import State
+    prog = ctx.prog
+    off = prog.offered()
+    n = 0
+    files = ('SchindelhauerTMCG.cc', 'BarnettSmartVTMF_dlog.cc', 'GrothVSSHE.cc', 'HooghSchoenmakersSkoricVillegasVRHE.cc', 'PedersenCOM.cc',
+             'JareckiLysyanskayaASTC.cc', 'NaorPinkasEOTP.cc')
+    for k, f in sorted(prog.funcs.items()):
+        if not f.get('body') or k not in off or not f['file'].endswith(files):
+            continue
+        if not re.search(r'Prove|Verify|Send_|Choose_|Flip|Share|Mix|Glue', f['q'].split('::')[-1]):
+            continue
+        a = ctx.analysis(f)
+        T = a.T
+        occ = {}
+        for nid, ev in sorted(a.all_events('usub'), key=lambda x: (x[1][4], x[0])):
+            x, y = ev[1], ev[2]
+            if T.op(x) != 'iv' or T.op(y) != 'iv' or x == y:
+                continue
+            st = a.instate[nid]
+            if len(ev) > 5 and ev[5]:
+                st = State(st.env, st.facts | frozenset(ev[5]))
+            n += 1
+            cons = bounds.constraints(a, st)
+            G = bounds.sub(bounds.upoly(a, x), bounds.upoly(a, y))
+            cons = cons + bounds.atom_constraints(a, bounds.atoms_of([G] + cons))
+            key0 = 'R03f:%s' % f['q']
+            occ[key0] = occ.get(key0, 0) + 1
+            key = '%s#%d' % (key0, occ[key0])
+            if bounds.prove_ge0(G, cons):
+                ctx.ok('R03f', key, 'difference of two loop counters is taken only where the first is not smaller', f, line=ev[4])
+            else:
+                ctx.bad('R03f', key, 'the unsigned difference of two loop counters is computed without a guard ordering them: it wraps for every '
+                        'iteration where the first is smaller, and a following reduction modulo the size gives the intended cyclic index only '
+                        'for sizes that divide 2^64', f, line=ev[4])
+    ctx.floor('R03f', n, 10)
